@@ -92,6 +92,11 @@ func mergeInto(m map[PKey]data.Point, p data.Point, now time.Time) bool {
 	if old, ok := m[k]; ok && old.Time.After(p.Time) {
 		return false
 	}
+	if y := p.Time.Year(); y < 1678 || y > 2261 {
+		// the store keeps a time as 64-bit nanoseconds: a year outside 1678..2261 comes back as the wrapped count; the
+		// comparison above is made with the time as it was submitted
+		p.Time = time.Unix(0, p.Time.UnixNano())
+	}
 	m[k] = p
 	return true
 }
